@@ -434,7 +434,7 @@ def reference(case):
     nmov = [val for p in case["params"] for text, kind, val in E2E_OVERRIDES if p.strip() == text and kind == "name"]
     if nmov:
         name = nmov[-1]
-    stem2mod, svc2mod = dict(FILE_POOL), dict(SVC_POOL)
+    stem2mod, svc2mod = dict(FILE_POOL + [("top", "top")]), dict(SVC_POOL)
     types, services = set(), set()
     root = "/".join(ns + [name + ("_" + version if version else "")])
     for fp in tg:
